@@ -563,17 +563,40 @@ func (s *MutableState) SetNode(ctx context.Context, existingNode, node *node.Nod
 
 	// Update indices mapping various keys to nodes.
 
-	// Consensus key.
-	if existingNode != nil && !existingNode.Consensus.ID.Equal(node.Consensus.ID) {
-		// Remove old consensus address mapping if it has changed.
-		address := []byte(tmcrypto.PublicKeyToCometBFT(&existingNode.Consensus.ID).Address())
-		if err = s.ms.Remove(ctx, nodeByConsAddressKeyFmt.Encode(address)); err != nil {
-			return abciAPI.UnavailableStateError(err)
+	// Remove old mappings of all keys that have changed first, so that a key
+	// which has moved between the slots is not removed after being re-added.
+	if existingNode != nil {
+		if !existingNode.Consensus.ID.Equal(node.Consensus.ID) {
+			// Remove old consensus address mapping if it has changed.
+			address := []byte(tmcrypto.PublicKeyToCometBFT(&existingNode.Consensus.ID).Address())
+			if err = s.ms.Remove(ctx, nodeByConsAddressKeyFmt.Encode(address)); err != nil {
+				return abciAPI.UnavailableStateError(err)
+			}
+			if err = s.ms.Remove(ctx, keyMapKeyFmt.Encode(&existingNode.Consensus.ID)); err != nil {
+				return abciAPI.UnavailableStateError(err)
+			}
 		}
-		if err = s.ms.Remove(ctx, keyMapKeyFmt.Encode(&existingNode.Consensus.ID)); err != nil {
-			return abciAPI.UnavailableStateError(err)
+		if !existingNode.P2P.ID.Equal(node.P2P.ID) {
+			// Remove old P2P key mapping if it has changed.
+			if err = s.ms.Remove(ctx, keyMapKeyFmt.Encode(&existingNode.P2P.ID)); err != nil {
+				return abciAPI.UnavailableStateError(err)
+			}
+		}
+		if !existingNode.VRF.ID.Equal(node.VRF.ID) {
+			// Remove old VRF key if it has changed.
+			if err = s.ms.Remove(ctx, keyMapKeyFmt.Encode(&existingNode.VRF.ID)); err != nil {
+				return abciAPI.UnavailableStateError(err)
+			}
+		}
+		if !existingNode.TLS.PubKey.Equal(node.TLS.PubKey) {
+			// Remove old TLS key mapping if it has changed.
+			if err = s.ms.Remove(ctx, keyMapKeyFmt.Encode(&existingNode.TLS.PubKey)); err != nil {
+				return abciAPI.UnavailableStateError(err)
+			}
 		}
 	}
+
+	// Consensus key.
 	address := []byte(tmcrypto.PublicKeyToCometBFT(&node.Consensus.ID).Address())
 	if err = s.ms.Insert(ctx, nodeByConsAddressKeyFmt.Encode(address), rawNodeID); err != nil {
 		return abciAPI.UnavailableStateError(err)
@@ -583,34 +606,16 @@ func (s *MutableState) SetNode(ctx context.Context, existingNode, node *node.Nod
 	}
 
 	// Committee P2P key.
-	if existingNode != nil && !existingNode.P2P.ID.Equal(node.P2P.ID) {
-		// Remove old P2P key mapping if it has changed.
-		if err = s.ms.Remove(ctx, keyMapKeyFmt.Encode(&existingNode.P2P.ID)); err != nil {
-			return abciAPI.UnavailableStateError(err)
-		}
-	}
 	if err = s.ms.Insert(ctx, keyMapKeyFmt.Encode(&node.P2P.ID), rawNodeID); err != nil {
 		return abciAPI.UnavailableStateError(err)
 	}
 
 	// VRF key.
-	if existingNode != nil && !existingNode.VRF.ID.Equal(node.VRF.ID) {
-		// Remove old VRF key if it has changed.
-		if err = s.ms.Remove(ctx, keyMapKeyFmt.Encode(&existingNode.VRF.ID)); err != nil {
-			return abciAPI.UnavailableStateError(err)
-		}
-	}
 	if err = s.ms.Insert(ctx, keyMapKeyFmt.Encode(&node.VRF.ID), rawNodeID); err != nil {
 		return abciAPI.UnavailableStateError(err)
 	}
 
 	// Committee TLS key.
-	if existingNode != nil && !existingNode.TLS.PubKey.Equal(node.TLS.PubKey) {
-		// Remove old TLS key mapping if it has changed.
-		if err = s.ms.Remove(ctx, keyMapKeyFmt.Encode(&existingNode.TLS.PubKey)); err != nil {
-			return abciAPI.UnavailableStateError(err)
-		}
-	}
 	if err = s.ms.Insert(ctx, keyMapKeyFmt.Encode(&node.TLS.PubKey), rawNodeID); err != nil {
 		return abciAPI.UnavailableStateError(err)
 	}
